@@ -39,7 +39,7 @@ def StreamProcessor_acquireReadLock : List String := ["readLock.Lock", "Dispose.
 def StreamProcessor_acquireWriteLock : List String := ["writeLock.Lock", "Dispose.IsClosed", "writeLock.Unlock", "writeLock.Unlock"]
 def StreamProcessor_onClose : List String := ["bufferMgr.Close", "closer.Close", "closer.Close", "closer.Close", "closer.Close"]
 def Tunnel_Close : List String := ["state.Load", "state.CompareAndSwap", "Dispose.Close", "localConn.Close", "tunnelRWC.Close", "shouldNotifyPeer", "sendCloseNotification", "manager.UnregisterTunnel", "onClosed", "state.Store"]
-def Tunnel_Start : List String := ["state.CompareAndSwap", "SetCtx", "manager.Ctx", "corelog.Infof", "monitorPeerNotification", "monitorTimeout", "runDataCopy"]
+def Tunnel_Start : List String := ["SetCtx", "manager.Ctx", "state.CompareAndSwap", "corelog.Infof", "monitorPeerNotification", "monitorTimeout", "runDataCopy"]
 end Skel
 
 end Gen
